@@ -23,8 +23,9 @@ import (
 
 type setOp struct {
 	SleepNs int64  `json:"sleepNs"`
-	Kind    string `json:"kind"` // zero | past | future
+	Kind    string `json:"kind"` // zero | past | future | same (the value of an earlier Set again) | epoch (a fixed instant long ago)
 	DurNs   int64  `json:"durNs"`
+	Ref     int    `json:"ref,omitempty"`
 	Both    bool   `json:"both"` // SetDeadline instead of SetReadDeadline
 }
 
@@ -66,7 +67,11 @@ func gen(r *harn.Rng, tier string) interface{} {
 	}
 	for i, n := 0, r.Range(1, 5); i < n; i++ {
 		op := setOp{SleepNs: sl(), Both: r.Bool(0.3)}
-		switch r.Intn(8) {
+		switch r.Intn(10) {
+		case 8:
+			op.Kind, op.Ref = "same", r.Intn(4)
+		case 9:
+			op.Kind = "epoch"
 		case 0:
 			op.Kind = "zero"
 		case 1:
@@ -253,8 +258,22 @@ func run(env *simrt.Env, sci interface{}) {
 				v = env.Now().Add(-time.Duration(o.DurNs))
 			case "future":
 				v = env.Now().Add(time.Duration(o.DurNs))
+			case "epoch":
+				v = time.Unix(0, 1)
+			case "same":
+				var prev []time.Time
+				for _, s := range sets {
+					if !s.val.IsZero() {
+						prev = append(prev, s.val)
+					}
+				}
+				if len(prev) > 0 {
+					v = prev[o.Ref%len(prev)]
+				} else {
+					v = env.Now().Add(time.Millisecond)
+				}
 			}
-			sets = append(sets, setRec{val: v, past: o.Kind == "past", inv: env.Stamp()})
+			sets = append(sets, setRec{val: v, past: o.Kind == "past" || o.Kind == "epoch" || (o.Kind == "same" && !v.After(env.Now())), inv: env.Stamp()})
 			var err error
 			if o.Both {
 				err = c.setBoth(v)
@@ -338,6 +357,7 @@ func run(env *simrt.Env, sci interface{}) {
 		}
 		return
 	}
+	nData := 0
 	sawTimeoutUnder := map[int]bool{} // index of the governing Set -> a read already timed out under it
 	for i, r := range reads {
 		if r == nil {
@@ -385,6 +405,17 @@ func run(env *simrt.Env, sci interface{}) {
 		// the read returned data (or a non-timeout error)
 		if r.err == nil {
 			env.Probe("data")
+			okLen := false
+			for _, o := range sc.Writes {
+				if o.Len == r.n {
+					okLen = true
+				}
+			}
+			nData++
+			if !okLen || nData > len(sc.Writes) {
+				env.Fail("C10/read-without-data", "%s: read #%d [%s, %s] returned (%d, nil) although no such datagram was waiting (%d reads have succeeded, %d datagrams were written): a read is released by data or by a timeout error, nothing else", sc.Conn, i, rel(r.tInv), rel(r.tRet), r.n, nData, len(sc.Writes))
+				return
+			}
 		}
 		if !overlapping && gov >= 0 && !vals[0].IsZero() {
 			pastAtSet := sets[gov].past
